@@ -56,11 +56,23 @@ pub fn job_c11(out_dir: &str, tier: &str, seed: u64) {
     let mut inputs = gen::corpus(&mut rng, if quick { 10 } else { 40 }, if quick { 500 } else { 12000 });
     inputs.retain(|i| !i.is_empty() && i.len() <= 120);
     let opts = RunOpts::default();
-    for (ii, input) in inputs.iter().enumerate() {
-        for si in 0..2 {
-            let (_, hs) = &sets[(ii * 5 + si * 11) % sets.len()];
-            let base = gen::merge(hs, &json!({"strict": false, "enc": "utf-8"}));
-            let cutsets = gen::light_cut_sets(input.len(), &mut rng, 1);
+    // (input, encoding, every single cut?)
+    let mut cases: Vec<(Vec<u8>, &'static str, bool)> = inputs.into_iter().map(|i| (i, "utf-8", false)).collect();
+    // text whose decoding goes through the streaming decoder (a write boundary inside a character, malformed
+    // bytes, high bytes of a single-byte encoding): a text handler failing on the first chunk of such a node
+    for t in ["<div><p>ab\u{e9} cd</p> tail</div>", "<p>\u{65e5}\u{672c}</p>x<i>\u{1F600}y</i>", "x\u{e9}<b>\u{e9}\u{e9}</b>"] {
+        cases.push((t.as_bytes().to_vec(), "utf-8", true));
+    }
+    // (malformed sequences are left out: a text handler normalises them to U+FFFD, C01's documented exception, so the
+    // sink is not comparable byte-wise with the input)
+    cases.push((b"<p>caf\xE9 cr\xE8me</p><b>\x80</b>".to_vec(), "windows-1252", true));
+    cases.push((b"<p>\x93\xFA\x96\x7B</p>t<i>\x83\x5C</i>".to_vec(), "shift_jis", true));
+    for (ii, (input, enc, allcuts)) in cases.iter().enumerate() {
+        let input = input;
+        for si in 0..(if *allcuts { 4 } else { 2 }) {
+            let (_, hs) = &sets[if *allcuts { [0usize, 1, 2, 6][si] % sets.len() } else { (ii * 5 + si * 11) % sets.len() }];
+            let base = gen::merge(hs, &json!({"strict": false, "enc": enc}));
+            let cutsets = if *allcuts { let mut c: Vec<Vec<usize>> = vec![vec![]]; for k in 1..input.len() { c.push(vec![k]); } c } else { gen::light_cut_sets(input.len(), &mut rng, 1) };
             for cuts in &cutsets {
                 let tl0 = driver::run(&base, input, cuts, &opts);
                 if tl0.iter().any(|e| e["e"] == "ret" && e["res"] != "ok") {
